@@ -138,7 +138,7 @@ unsigned vp_mu_step (uint32_t old, uint32_t new_, struct vp_mu_ghost *g, int ord
 	}
 	/* C02 H1: the thread that set MU_DESIG_WAKER either clears it again when it releases the spinlock, or wakes a waiter (checked
 	   as a postcondition of nsync_mu_unlock_slow_ from this ghost) */
-	if (rel_spin && g->set_desig) { g->released_with_desig = (new_ & MU_DESIG_WAKER) != 0; g->set_desig = 0; }
+	if (rel_spin && g->set_desig) g->released_with_desig = (new_ & MU_DESIG_WAKER) != 0;   /* (recomputed at every release: the last one counts) */
 	/* C02 H4: the queue spinlock is released with MU_WAITING set whenever the queue is left non-empty */
 	if (rel_spin && g->h4_check && vp_reg.mu_word != NULL && ((nsync_mu *) vp_reg.mu_word)->waiters != NULL &&
 	    (old & MU_WAITING) != 0 && (new_ & MU_WAITING) == 0) viol |= V_H4;
@@ -360,13 +360,16 @@ int vp_note_cas (int i, nsync_atomic_uint32_ *p, uint32_t o, uint32_t n, int ord
    hand-off is "unlink, store waiting = 0 with release order, post the
    semaphore", in that order.  The records are the abstract queue's foreign
    record vp_fw or harness-registered records. */
+struct vp_waker_ghost vp_wk;
 #ifdef VP_RG_WAKER
 #ifdef VP_WK_LOCKED
 #include "vp_amu.h"
 #endif
-struct vp_waker_ghost vp_wk;
 #define VP_IS_REC(i) (vp_wk.rec[i] != NULL && p == &vp_wk.rec[i]->waiting)
 static int is_foreign_waiting (nsync_atomic_uint32_ *p) {   /* (no loop: VP_WK_MAX == 4) */
+#ifdef VP_TWO_RECORDS
+	if (p == &vp_fw2.nw.waiting) return 1;
+#endif
 	return p == &vp_fw.nw.waiting || VP_IS_REC (0) || VP_IS_REC (1) || VP_IS_REC (2) || VP_IS_REC (3);
 }
 static void foreign_waiting_store (nsync_atomic_uint32_ *p, uint32_t v, int order) {
@@ -464,10 +467,8 @@ void vp_reg_clear (void) {
 	vp_reg.sem_word = NULL; vp_reg.value_word = NULL; vp_reg.notified_word = NULL;
 	vp_cvg.spin = 0; vp_cvg.in_wait = 0; vp_cvg.enq_done = 0; vp_cvg.unlinked_by_other = 0; vp_cvg.self_dequeued = 0; vp_cvg.sections = 0;
 	vp_cvg.my_remove_count = NULL;
-#ifdef VP_RG_WAKER
 	vp_wk.rec[0] = NULL; vp_wk.rec[1] = NULL; vp_wk.rec[2] = NULL; vp_wk.rec[3] = NULL;
 	vp_wk.cleared = 0; vp_wk.posted = 0; vp_wk.pending = 0; vp_wk.last_cleared = NULL; vp_wk.lock = NULL;
-#endif
 }
 
 int vp_cas (nsync_atomic_uint32_ *p, uint32_t o, uint32_t n, int order) {
